@@ -948,3 +948,59 @@ pub fn termination(scn: &Scenario, l: &RunLog, cancel: Option<(u64, Side)>, boun
     }
     v
 }
+
+// ---------------------------------------------------------------------------------------------
+// C14 end to end: datagram sizes, probe discipline and settling on a size-blackholing path
+// ---------------------------------------------------------------------------------------------
+pub fn mtu_wire(scn: &Scenario, l: &RunLog, fault_free: bool) -> Vec<Finding> {
+    let mut v = vec![];
+    let ip = if scn.ipv6 { 48usize } else { 28 };
+    for (from_a, cfg) in [(true, &scn.a), (false, &scn.b)] {
+        let limit = cfg.link_mtu - ip; // UDP payload the link allows
+        if let Some(w) = l.wire.iter().find(|w| w.from_a == from_a && !w.injected && w.len > limit) {
+            v.push(f(
+                "C14",
+                "datagram-size",
+                "mtu/datagram-exceeds-link-mtu",
+                format!("send #{} is a {}-byte datagram; link MTU {} ({}) allows {} bytes of UDP payload", w.k, w.len, cfg.link_mtu, if scn.ipv6 { "IPv6" } else { "IPv4" }, limit),
+            ));
+        }
+    }
+    // settling (writer A): the largest payload that fits the path
+    let ceiling = scn.a.link_mtu - ip - 20;
+    let path = scn.blackhole_above.or(scn.emsgsize_above).map(|d| d - 20).unwrap_or(usize::MAX);
+    let want = ceiling.min(path);
+    let floor = (if scn.ipv6 { 1280usize } else { 576 }).min(scn.a.link_mtu) - ip - 20;
+    if want >= floor && fault_free && l.apps_finished {
+        // first transmissions of A in order
+        let mut seen = std::collections::BTreeSet::new();
+        let firsts: Vec<&WireEventLite> = l.wire.iter().filter(|w| w.from_a && w.ptype == 0 && !w.injected).filter(|w| seen.insert(w.seq)).collect();
+        let range = (ceiling - floor) as u32;
+        let max_probes = if range == 0 { 0 } else { 32 - range.leading_zeros() + 1 } as usize;
+        // probes = first transmissions larger than anything delivered before
+        let mut proven = floor;
+        let mut probes = 0usize;
+        for w in &firsts {
+            let delivered = !w.rejected && w.len <= path.saturating_add(20) && !w.path_lost;
+            if w.payload.len() > proven {
+                probes += 1;
+            }
+            if delivered {
+                proven = proven.max(w.payload.len());
+            }
+        }
+        if probes > max_probes + 1 {
+            v.push(f("C14", "convergence", "mtu/too-many-probes", format!("{} probes on a path whose search range is {} bytes (logarithmic bound {})", probes, range, max_probes)));
+        }
+        let total: usize = firsts.iter().map(|w| w.payload.len()).sum();
+        if total >= 50_000 && proven != want {
+            v.push(f(
+                "C14",
+                "convergence",
+                "mtu/does-not-settle-on-largest-size-that-fits",
+                format!("after {} bytes the largest delivered payload is {} bytes; the largest that fits the path (link ceiling {}, path limit {:?}) is {}", total, proven, ceiling, scn.blackhole_above.or(scn.emsgsize_above), want),
+            ));
+        }
+    }
+    v
+}
